@@ -1019,35 +1019,107 @@ def rule_keyword_escaping(ctx, rep: Report, rid="A6"):
     rep.add(rid, "python_keywords:contains every reserved word of Python", not missing,
             f"missing {missing}: a C++ method or function with such a name is bound under a name Python cannot "
             f"parse (`obj.{missing[0] if missing else ''}()` is a SyntaxError)", f"{ci.mod.rel}:{kloc}")
+    def is_kw_test(fn, test, var):
+        return isinstance(test, ast.Compare) and len(test.ops) == 1 and isinstance(test.ops[0], ast.In) \
+            and unparse(test.left) == var and "python_keywords" in unparse(inline_locals(fn, test.comparators[0]))
+
+    def is_escaped(e, var):
+        return isinstance(e, ast.BinOp) and isinstance(e.op, ast.Add) and unparse(e.left) == var and \
+            isinstance(e.right, ast.Constant) and e.right.value == "_"
+
+    def escape_ifs(fn, var):
+        out = []
+        for i in walk_no_nested(fn):
+            if isinstance(i, ast.If) and is_kw_test(fn, i.test, var):
+                ok_body = any(isinstance(s, ast.Assign) and unparse(s.targets[0]) == var and is_escaped(s.value, var) for s in i.body) or \
+                    any(isinstance(s, ast.AugAssign) and unparse(s.target) == var and isinstance(s.op, ast.Add)
+                        and isinstance(s.value, ast.Constant) and s.value.value == "_" for s in i.body)
+                if ok_body:
+                    out.append(i)
+        return out
+
+    def escaping_helper(call):
+        """`self.h(x, ...)` where h returns its first parameter with '_' appended iff it is in the keyword list."""
+        if not (isinstance(call, ast.Call) and isinstance(call.func, ast.Attribute) and unparse(call.func.value) == "self"):
+            return None
+        h = prog.find_method(ci, call.func.attr)
+        if h is None:
+            return None
+        hf = h[1]
+        params = [a.arg for a in hf.args.args if a.arg != "self"]
+        if not params or not call.args:
+            return None
+        pv = params[0]
+        rets = [r for r in walk_no_nested(hf) if isinstance(r, ast.Return)]
+        if not rets:
+            return None
+        esc = escape_ifs(hf, pv)
+        found = bool(esc) and all(not guards_of(i, hf, include_exits=False) for i in esc)
+        for r in rets:
+            v = r.value
+            if isinstance(v, ast.Name) and v.id == pv:
+                continue
+            if isinstance(v, ast.IfExp) and is_kw_test(hf, v.test, pv) and is_escaped(v.body, pv) and unparse(v.orelse) == pv:
+                found = True
+                continue
+            if is_escaped(v, pv):
+                g = enclosing(r, ast.If)
+                if g is not None and is_kw_test(hf, g.test, pv) and r in g.body:
+                    found = True
+                    continue
+            return None
+        if any(isinstance(s, (ast.Assign, ast.AugAssign)) and unparse(s.targets[0] if isinstance(s, ast.Assign) else s.target) == pv
+               and enclosing(s, ast.If) not in esc for s in walk_no_nested(hf)):
+            return None
+        return hf if found else None
+
     for name, slot in (("_wrap_method", "py_method"), ("wrap_functions", "function_name")):
         fn = prog.method("PybindWrapper", name)
         tpl0 = find_tpl(ctx, fn, {slot, "prefix"})
         if tpl0 is None or not isinstance(tpl0.slot(slot).expr, ast.Name):
             raise AnalysisError(f"{name}: the binding's name slot {{{slot}}} is not bound to a local")
         var = tpl0.slot(slot).expr.id
-        esc = []
-        for i in walk_no_nested(fn):
-            if isinstance(i, ast.If) and isinstance(i.test, ast.Compare) and len(i.test.ops) == 1 and isinstance(i.test.ops[0], ast.In) \
-                    and unparse(i.test.left) == var and "python_keywords" in unparse(inline_locals(fn, i.test.comparators[0])):
-                ok_body = any(isinstance(s, ast.Assign) and unparse(s.targets[0]) == var and unparse(s.value).replace(" ", "") in (f"{var}+'_'",)
-                              for s in i.body) or any(isinstance(s, ast.AugAssign) and unparse(s.target) == var for s in i.body)
-                if ok_body:
-                    esc.append(i)
-        ok = len(esc) == 1
-        uncond = ok and not guards_of(esc[0], fn, include_exits=False)
+        esc = escape_ifs(fn, var)
+        via_helper = [s for s in walk_no_nested(fn) if isinstance(s, ast.Assign) and unparse(s.targets[0]) == var
+                      and escaping_helper(s.value) is not None]
+        steps = esc + via_helper
+        ok = len(steps) == 1
+        uncond = ok and not guards_of(steps[0], fn, include_exits=False)
         # must come after the last other assignment to the name and before the template
         later = []
         if ok:
             later = [s for s in walk_no_nested(fn) if isinstance(s, ast.Assign) and unparse(s.targets[0]) == var
-                     and s.lineno > esc[0].lineno and enclosing(s, ast.If) is not esc[0]]
+                     and s.lineno > steps[0].lineno and enclosing(s, ast.If) is not steps[0] and s is not steps[0]]
         rep.add(rid, f"{name}:Python-visible name passes the keyword escape on every path", ok and uncond and not later,
                 ("no escape step found" if not ok else
-                 f"escape under extra guards {guards_of(esc[0], fn, include_exits=False)}" if not uncond else
+                 f"escape under extra guards {guards_of(steps[0], fn, include_exits=False)}" if not uncond else
                  f"name re-assigned after the escape at line(s) {[s.lineno for s in later]}"),
                 f"{ci.mod.rel}:{fn.lineno}")
         rep.add(rid, f"{name}:the escaped name is the one emitted", True, f"slot {slot} <- {var}",
                 f"{ci.mod.rel}:{fn.lineno}", nontrivial=False)
-
+    # the keyword list is configuration: nothing adds to it while declarations are wrapped (directly or through an alias)
+    sites = []
+    for k in prog.mro(ci):
+        for mname, mfn in k.methods.items():
+            if mname == "__init__":
+                continue
+            aliases = {"self.python_keywords"}
+            for st in walk_no_nested(mfn):
+                if isinstance(st, ast.Assign) and unparse(st.value) == "self.python_keywords":
+                    aliases |= {unparse(t) for t in st.targets}
+            for n_ in walk_no_nested(mfn):
+                if isinstance(n_, ast.AugAssign) and unparse(n_.target) in aliases:
+                    sites.append((mname, n_.lineno, f"`{unparse(n_.target)} {type(n_.op).__name__}=` extends the list in place"))
+                elif isinstance(n_, ast.Call) and isinstance(n_.func, ast.Attribute) and unparse(n_.func.value) in aliases and \
+                        n_.func.attr in ("append", "extend", "insert", "remove", "pop", "clear", "sort", "reverse"):
+                    sites.append((mname, n_.lineno, f"`{unparse(n_.func)}()`"))
+                elif isinstance(n_, ast.Subscript) and isinstance(n_.ctx, (ast.Store, ast.Del)) and unparse(n_.value) in aliases:
+                    sites.append((mname, n_.lineno, "item store"))
+                elif isinstance(n_, ast.Assign) and any(unparse(t) == "self.python_keywords" for t in n_.targets):
+                    sites.append((mname, n_.lineno, "re-assignment"))
+    rep.add(rid, "python_keywords:the list is never modified after construction (also not through a local alias)", not sites,
+            "; ".join(f"{m}:{ln} {how}" for m, ln, how in sites[:3]) + ": names escaped for one declaration stay escaped for "
+            "every later declaration / file wrapped by the same object", f"{ci.mod.rel}:{sites[0][1] if sites else kloc}")
 
 
 def rule_default_text_verbatim(ctx, rep: Report, rid="B2", rels=("gtwrap/pybind_wrapper.py", "gtwrap/matlab_wrapper/wrapper.py")):
